@@ -233,4 +233,73 @@ theorem lexLoop_spec (s : Bytes) : ∀ (f : Nat) (st : LxSt) (pre : Bytes), Inv 
 theorem lexAll_good (s : Bytes) : ∀ t ∈ lexAll s, TokGood s t :=
   lexLoop_spec s _ _ [] (Inv.init s)
 
+/-! ### when is a state clean? Two shapes of the INPUT suffice to exclude every uncounted newline -/
+
+/-- `/**/` occurs in the document (the D62 shape can only start there). -/
+def HasEmptyComment (s : Bytes) : Prop := [47, 42, 42, 47] <:+: s
+/-- a backslash directly followed by a newline occurs in the document. -/
+def HasEscapedNewline (s : Bytes) : Prop := [92, 10] <:+: s
+
+theorem infix_of_suffix_split {p pre rest : Bytes} (h : p <:+: rest) : p <:+: pre ++ rest := by
+  obtain ⟨a, b, hab⟩ := h
+  exact ⟨pre ++ a, b, by simp [← hab]⟩
+
+theorem litScan_close (q : UInt8) (R : Bytes) : litScan q (q :: R) = .closed 1 := by
+  unfold litScan; simp
+
+theorem litScan_plain (q c : UInt8) (R : Bytes) (h1 : c ≠ q) (h2 : c ≠ 10) (h3 : c ≠ 92) :
+    litScan q (c :: R) = (litScan q R).add 1 := by
+  cases R <;> simp [litScan, h1, h2, h3]
+
+theorem litScan_esc (q e : UInt8) (R : Bytes) (hq : q ≠ 92) :
+    litScan q (92 :: e :: R) = (litScan q R).add 2 := by
+  simp [litScan, Ne.symm hq]
+
+/-- a literal that closes contains a newline only directly after a backslash. -/
+theorem litScan_nl (q : UInt8) (hq : q ≠ 10) : ∀ (r : Bytes) (n : Nat), litScan q r = .closed n →
+    (r.take n).contains 10 = true → [92, 10] <:+: r := by
+  intro r
+  induction r using litScan.induct q with
+  | case1 => intro n h; simp [litScan] at h
+  | case2 rest =>
+    intro n h hc
+    rw [litScan_close] at h
+    injection h with h; subst h
+    simp at hc; exact absurd hc.symm hq
+  | case3 rest hne =>
+    intro n h
+    cases rest <;> simp [litScan, hne] at h
+  | case4 h1 h2 => intro n h; simp [litScan, h1] at h
+  | case5 d tail h1 h2 ih =>
+    intro n h hc
+    rw [litScan_esc q d tail (fun e => h1 e.symm)] at h
+    cases ht : litScan q tail with
+    | closed n' =>
+      rw [ht] at h
+      simp only [LitScan.add] at h
+      injection h with h; subst h
+      simp only [List.take_succ_cons, List.contains_cons, Bool.or_eq_true, beq_iff_eq] at hc
+      rcases hc with hc | hc | hc
+      · cases hc
+      · exact ⟨[], tail, by simp [hc]⟩
+      · obtain ⟨a, b, hab⟩ := ih n' ht hc
+        exact ⟨92 :: d :: a, b, by simp [← hab]⟩
+    | newline => rw [ht] at h; simp [LitScan.add] at h
+    | open_ => rw [ht] at h; simp [LitScan.add] at h
+  | case6 c rest h1 h2 h3 ih =>
+    intro n h hc
+    rw [litScan_plain q c rest h1 h2 h3] at h
+    cases ht : litScan q rest with
+    | closed n' =>
+      rw [ht] at h
+      simp only [LitScan.add] at h
+      injection h with h; subst h
+      simp only [List.take_succ_cons, List.contains_cons, Bool.or_eq_true, beq_iff_eq] at hc
+      rcases hc with hc | hc
+      · exact absurd hc.symm h2
+      · obtain ⟨a, b, hab⟩ := ih n' ht hc
+        exact ⟨c :: a, b, by simp [← hab]⟩
+    | newline => rw [ht] at h; simp [LitScan.add] at h
+    | open_ => rw [ht] at h; simp [LitScan.add] at h
+
 end ThriftVerif.Idl
